@@ -7,6 +7,7 @@ import PMV.Model.NI
    idx := (shape (ints*) mask)            am := (shape (bools*))
    tree := (v i) | (un op t) | (bin op t t) | (red op (axes*) t) | (sort axis t) | (index t iv) | (su am t)
            | (cmp op t t)   (root only)
+           | (prog (assign i t) | (query t) ...)   statement sequence; answer: one observation per statement
    answer: (shape (maskbits*) (valbits at unmasked*) deriv)  deriv := - | ((merged maskbits*) (valbits*))
            | ValueError | IndexError -/
 namespace Drv.C03
@@ -147,6 +148,17 @@ def handle : List Sx → Sx
       let P := prims tb (Float.ofBits cut.toUInt64)
       let env : Env Float := ⟨objs, idxs, ams⟩
       match tree with
+      | .list (.atom "prog" :: stmts) =>
+        let parseStmt : Sx → Option Stmt := fun x => match x with
+          | .list [.atom "assign", i, e] => do some (.assign (← i.toNat?) (← parseExpr e))
+          | .list [.atom "query", e] => do some (.query (← parseExpr e))
+          | _ => none
+        match stmts.mapM parseStmt with
+        | some sts =>
+          .list ((runStmts P env sts).1.map fun r => match r with
+            | .ok x => objSx x
+            | .error e => errSx e)
+        | none => err "stmt"
       | .list [.atom "cmp", .atom op, e1, e2] =>
         match parseC op, parseExpr e1, parseExpr e2 with
         | some op, some e1, some e2 =>
